@@ -450,7 +450,7 @@ class Automaton:
         self.edges = []  # (src, label, dst)
         self.init = None
         self.spawned = None      # closure value passed to spawn (main role)
-        self.job_closure = None  # closure value passed to execute (reader role)
+        self.job_kinds = {}      # closure body name -> closure value passed to execute (reader role)
         self.pool_size = None
         self.regs = set()
 
@@ -851,13 +851,17 @@ def successors(ex, A, stack, kmax):
         return [(("pool_enter",), rest + [(fn, bb, env, ret_to), fr])]
     if re.match(r"^scoped_threadpool::Scope::<.*>::execute::<", c):
         clo = ex.operand(env, args[1])
-        if clo[0] != "CLOS" or ex.closure_fn.get(clo[1]) != ex.F_job:
+        if clo[0] != "CLOS" or clo[1] not in ex.closure_fn:
             raise Unrecognised("execute argument")
         toks = [f for f in clo[2] if f[0] == "TOK"]
-        if len(toks) != 1:
-            raise Unrecognised("job closure does not own exactly one data set")
-        A.job_closure = clo
-        return [ret(OPQ, ("execute", toks[0][1]))]
+        if len(toks) > 1:
+            raise Unrecognised("job closure owns more than one data set")
+        # jobs may be of several kinds (closure bodies); each kind gets its own automaton
+        kind = ex.closure_fn[clo[1]]
+        if kind not in A.job_kinds:
+            A.job_kinds[kind] = clo
+        k = list(A.job_kinds).index(kind)
+        return [ret(OPQ, ("execute", k, toks[0][1] if toks else None))]
     if re.match(r"^scoped_threadpool::Scope::<.*>::join_all$", c):
         return [ret(OPQ, ("join_all",))]
     m2 = re.match(r"^(?:std::option::)?Option::<.*>::map::<.*?(\{closure@[^}]*\})>$", c)
@@ -933,19 +937,25 @@ def extract(mir_text, queue_len, kmax, n_threads=1):
     if main.spawned is None:
         raise Unrecognised("no reader thread is spawned")
     reader = build_role(ex, "reader", [(ex.F_reader, "bb0", {"_1": main.spawned, "_2": OPQ}, None)], kmax)
-    if reader.job_closure is None:
+    if not reader.job_kinds:
         raise Unrecognised("no job is ever executed")
-    clo = reader.job_closure
-    fields = tuple(("TOK", "job.tok") if f[0] == "TOK" else f for f in clo[2])
-    job = build_role(ex, "job", [(ex.F_job, "bb0", {"_1": ("CLOS", clo[1], fields)}, None)], kmax)
-    job.regs.add("job.tok")
+    jobs = []
+    for kind, clo in reader.job_kinds.items():
+        fields = tuple(("TOK", "job.tok") if f[0] == "TOK" else f for f in clo[2])
+        j = build_role(ex, "job", [(kind, "bb0", {"_1": ("CLOS", clo[1], fields)}, None)], kmax)
+        j.regs.add("job.tok")
+        jobs.append(j)
+        if kind not in ex.functions_encoded:
+            ex.functions_encoded.append(kind)
+    job = jobs[0]
+    job.kinds = jobs
     return ex, main, reader, job
 
 
 if __name__ == "__main__":
     txt = open(sys.argv[1]).read()
     ex, main, reader, job = extract(txt, int(sys.argv[2]) if len(sys.argv) > 2 else 2, 2, 2)
-    for A in (main, reader, job):
+    for A in [main, reader] + job.kinds:
         print("== %s: %d states, %d edges, init %d" % (A.role, A.n, len(A.edges), A.init))
         for s, l, d in A.edges:
             print("   %3d --%s--> %d" % (s, " ; ".join(str(x) for x in l), d))
